@@ -1,7 +1,7 @@
 # C07 job table (see DESIGN.md section 3): Variant value semantics
 from .jobs import job, Q, T
 
-PROBES = ['Variant.operator==', 'Variant.operator=(Variant)']   # first key component of the findings whose --probe lives in h_variant (matched by key prefix there)
+PROBES = ['Variant.operator==', 'Variant.operator=(Variant)', 'Variant.operator=(list)']   # first key component of the findings whose --probe lives in h_variant (matched by key prefix there)
 
 SPEC = dict(
     level='exploration',
